@@ -1,0 +1,346 @@
+//! Verification hooks (cargo feature `verif`).
+//!
+//! Layout-transparent wrappers around the core atomics that report every access
+//! to a thread-local callback, plus a few plain events. With the feature off this
+//! module does not exist and the crate uses the core atomics directly.
+
+use core::sync::atomic::{self as core_atomic, Ordering};
+use std::{boxed::Box, cell::Cell};
+
+/// What kind of access an [`Event`] describes.
+#[derive(Clone, Copy, Debug, PartialEq, Eq)]
+pub enum Kind {
+  /// Atomic load.
+  Load,
+  /// Atomic store.
+  Store,
+  /// Atomic compare-exchange (strong or weak).
+  Cas,
+  /// Atomic fetch_add.
+  FetchAdd,
+  /// Atomic fetch_sub.
+  FetchSub,
+  /// Non-atomic write by the arena itself into `[addr, addr + len)`.
+  MemWrite,
+  /// The backing memory `[addr, addr + len)` is about to be released.
+  Unmount,
+}
+
+/// One reported access.
+#[derive(Clone, Copy, Debug)]
+pub struct Event {
+  /// `true` when reported before the access is performed, `false` after.
+  pub before: bool,
+  /// The kind of access.
+  pub kind: Kind,
+  /// Address of the accessed location.
+  pub addr: usize,
+  /// Width in bytes of an atomic access.
+  pub width: u8,
+  /// Length in bytes of a `MemWrite` / `Unmount`.
+  pub len: usize,
+  /// Ordering (success ordering for CAS).
+  pub success: Ordering,
+  /// Failure ordering for CAS (same as `success` otherwise).
+  pub failure: Ordering,
+  /// Value observed (loads, RMWs; after-event only).
+  pub old: u64,
+  /// Value written or attempted to be written.
+  pub new: u64,
+  /// Whether the access wrote (after-event only).
+  pub wrote: bool,
+  /// `compare_exchange_weak`.
+  pub weak: bool,
+}
+
+/// What the hook asks the wrapper to do (only honoured for before-events).
+#[derive(Clone, Copy, Debug, PartialEq, Eq)]
+pub enum Action {
+  /// Perform the access.
+  Proceed,
+  /// Let a `compare_exchange_weak` fail spuriously (ignored for anything else).
+  SpuriousFail,
+}
+
+/// The callback type.
+pub type Hook = Box<dyn FnMut(&Event) -> Action>;
+
+std::thread_local! {
+  static HOOK: Cell<Option<Hook>> = const { Cell::new(None) };
+}
+
+static ANY: core_atomic::AtomicUsize = core_atomic::AtomicUsize::new(0);
+
+/// Installs (or removes) the hook of the calling thread, returning the previous one.
+pub fn set_hook(h: Option<Hook>) -> Option<Hook> {
+  let had = HOOK.with(|c| c.replace(None));
+  match (&had, &h) {
+    (None, Some(_)) => {
+      ANY.fetch_add(1, Ordering::SeqCst);
+    }
+    (Some(_), None) => {
+      ANY.fetch_sub(1, Ordering::SeqCst);
+    }
+    _ => {}
+  }
+  HOOK.with(|c| c.set(h));
+  had
+}
+
+#[inline]
+fn emit(e: &Event) -> Action {
+  if ANY.load(Ordering::Relaxed) == 0 {
+    return Action::Proceed;
+  }
+  emit_slow(e)
+}
+
+#[cold]
+fn emit_slow(e: &Event) -> Action {
+  // take the hook out while it runs so that a re-entrant access is not reported.
+  let Ok(h) = HOOK.try_with(|c| c.take()) else {
+    return Action::Proceed;
+  };
+  match h {
+    None => Action::Proceed,
+    Some(mut h) => {
+      let a = h(e);
+      let _ = HOOK.try_with(|c| {
+        // only put it back if the hook did not install another one meanwhile.
+        let cur = c.take();
+        if cur.is_none() {
+          c.set(Some(h));
+        } else {
+          c.set(cur);
+        }
+      });
+      a
+    }
+  }
+}
+
+/// Reports a non-atomic write by the arena.
+#[inline]
+pub fn mem_write(addr: usize, len: usize) {
+  let e = Event {
+    before: true,
+    kind: Kind::MemWrite,
+    addr,
+    width: 0,
+    len,
+    success: Ordering::Relaxed,
+    failure: Ordering::Relaxed,
+    old: 0,
+    new: 0,
+    wrote: true,
+    weak: false,
+  };
+  emit(&e);
+}
+
+/// Reports that the backing memory is about to be released.
+#[inline]
+pub fn unmount(addr: usize, len: usize) {
+  let e = Event {
+    before: true,
+    kind: Kind::Unmount,
+    addr,
+    width: 0,
+    len,
+    success: Ordering::Relaxed,
+    failure: Ordering::Relaxed,
+    old: 0,
+    new: 0,
+    wrote: true,
+    weak: false,
+  };
+  emit(&e);
+}
+
+macro_rules! wrapper {
+  ($name:ident, $ty:ty, $width:expr) => {
+    /// Layout-transparent reporting wrapper.
+    #[repr(transparent)]
+    pub struct $name(core_atomic::$name);
+
+    impl core::fmt::Debug for $name {
+      fn fmt(&self, f: &mut core::fmt::Formatter<'_>) -> core::fmt::Result {
+        self.0.fmt(f)
+      }
+    }
+
+    impl $name {
+      /// See the core atomic.
+      #[inline]
+      pub const fn new(v: $ty) -> Self {
+        Self(core_atomic::$name::new(v))
+      }
+
+      /// Reads the current value without reporting an event.
+      #[inline]
+      pub fn raw(&self) -> $ty {
+        self.0.load(Ordering::Relaxed)
+      }
+
+      #[inline]
+      fn ev(&self, kind: Kind, s: Ordering, f: Ordering, new: u64, weak: bool) -> Event {
+        Event {
+          before: true,
+          kind,
+          addr: self as *const Self as usize,
+          width: $width,
+          len: ($width) as usize,
+          success: s,
+          failure: f,
+          old: 0,
+          new,
+          wrote: false,
+          weak,
+        }
+      }
+
+      /// See the core atomic.
+      #[inline]
+      pub fn load(&self, o: Ordering) -> $ty {
+        let mut e = self.ev(Kind::Load, o, o, 0, false);
+        emit(&e);
+        let v = self.0.load(o);
+        e.before = false;
+        e.old = v as u64;
+        emit(&e);
+        v
+      }
+
+      /// See the core atomic.
+      #[inline]
+      pub fn store(&self, v: $ty, o: Ordering) {
+        let mut e = self.ev(Kind::Store, o, o, v as u64, false);
+        emit(&e);
+        let old = self.0.load(Ordering::Relaxed);
+        self.0.store(v, o);
+        e.before = false;
+        e.old = old as u64;
+        e.wrote = true;
+        emit(&e);
+      }
+
+      /// See the core atomic.
+      #[inline]
+      pub fn compare_exchange(
+        &self,
+        cur: $ty,
+        new: $ty,
+        s: Ordering,
+        f: Ordering,
+      ) -> Result<$ty, $ty> {
+        let mut e = self.ev(Kind::Cas, s, f, new as u64, false);
+        emit(&e);
+        let r = self.0.compare_exchange(cur, new, s, f);
+        e.before = false;
+        match r {
+          Ok(v) => {
+            e.old = v as u64;
+            e.wrote = true;
+          }
+          Err(v) => e.old = v as u64,
+        }
+        emit(&e);
+        r
+      }
+
+      /// See the core atomic. A strong CAS unless the hook asks for a spurious failure.
+      #[inline]
+      pub fn compare_exchange_weak(
+        &self,
+        cur: $ty,
+        new: $ty,
+        s: Ordering,
+        f: Ordering,
+      ) -> Result<$ty, $ty> {
+        let mut e = self.ev(Kind::Cas, s, f, new as u64, true);
+        let r = if emit(&e) == Action::SpuriousFail {
+          Err(self.0.load(f))
+        } else {
+          self.0.compare_exchange(cur, new, s, f)
+        };
+        e.before = false;
+        match r {
+          Ok(v) => {
+            e.old = v as u64;
+            e.wrote = true;
+          }
+          Err(v) => e.old = v as u64,
+        }
+        emit(&e);
+        r
+      }
+
+      /// See the core atomic.
+      #[inline]
+      pub fn fetch_add(&self, v: $ty, o: Ordering) -> $ty {
+        let mut e = self.ev(Kind::FetchAdd, o, o, v as u64, false);
+        emit(&e);
+        let old = self.0.fetch_add(v, o);
+        e.before = false;
+        e.old = old as u64;
+        e.wrote = true;
+        emit(&e);
+        old
+      }
+
+      /// See the core atomic.
+      #[inline]
+      pub fn fetch_sub(&self, v: $ty, o: Ordering) -> $ty {
+        let mut e = self.ev(Kind::FetchSub, o, o, v as u64, false);
+        emit(&e);
+        let old = self.0.fetch_sub(v, o);
+        e.before = false;
+        e.old = old as u64;
+        e.wrote = true;
+        emit(&e);
+        old
+      }
+    }
+  };
+}
+
+wrapper!(AtomicU32, u32, 4);
+wrapper!(AtomicU64, u64, 8);
+wrapper!(AtomicUsize, usize, core::mem::size_of::<usize>() as u8);
+
+/// Result of a bounded raw walk over the free list.
+#[derive(Clone, Debug, PartialEq, Eq)]
+pub struct FreelistSnapshot {
+  /// The raw sentinel word.
+  pub sentinel: u64,
+  /// `(node offset, size field, next field)` in list order.
+  pub nodes: std::vec::Vec<(u32, u32, u32)>,
+  /// `false` if the walk stopped because of `max`, a misaligned or an out-of-range offset.
+  pub complete: bool,
+}
+
+/// Walks the list starting from `sentinel`; `read(off)` returns the raw word at `off`.
+pub(crate) fn walk_freelist(
+  sentinel: u64,
+  cap: u32,
+  max: usize,
+  read: impl Fn(u32) -> u64,
+) -> FreelistSnapshot {
+  let mut nodes = std::vec::Vec::new();
+  let mut next = sentinel as u32;
+  let mut complete = true;
+  while next != u32::MAX {
+    if nodes.len() >= max || next % 8 != 0 || next as u64 + 8 > cap as u64 {
+      complete = false;
+      break;
+    }
+    let w = read(next);
+    nodes.push((next, (w >> 32) as u32, w as u32));
+    next = w as u32;
+  }
+  FreelistSnapshot {
+    sentinel,
+    nodes,
+    complete,
+  }
+}
